@@ -1174,7 +1174,13 @@ def run_format(ctx, fmt, only=None):
         if kind not in fmt.hm_kinds:
             continue
         for params in fn(rng, 80 if not ctx.quick else 1):
-            data, expect = H.BUILDERS[kind](params)
+            try:
+                data, expect = H.BUILDERS[kind](params)
+            except AssertionError:
+                # the case generator asked the independent builder for something it does not build (e.g. an ADTS frame
+                # length below header + CRC): not an input
+                ctx.hist["hm:unbuildable:" + kind] += 1
+                continue
             inputs.append(("hm:" + kind, data, dict(params, fmt=kind)))
             line = fmt.spec_line(kind, params)
             if line is not None:
